@@ -157,7 +157,7 @@ def value_for(draw, cname, pname, param, classes, depth):
         return ("obj", draw(instance_desc(classes, fam, depth - 1)))
     if pname == "operations":
         fam = draw(st.sampled_from(["displacement", "deformation"]))
-        return ("objs", draw(st.lists(instance_desc(classes, fam, depth - 1), min_size=1, max_size=3)))
+        return ("objs", draw(st.lists(instance_desc(classes, fam, depth - 1), min_size=1, max_size=3)), draw(st.sampled_from([1, 1, 2])))
     if pname == "moves":
         ann = str(param.annotation)
         want = "ExchangeMove" if "ExchangeMove" in ann else "DisplacementMove" if "DisplacementMove" in ann else None
@@ -165,7 +165,7 @@ def value_for(draw, cname, pname, param, classes, depth):
             elems = st.lists(instance_desc(classes, "move:" + want, depth - 1), min_size=1, max_size=3)
         else:
             elems = st.lists(instance_desc(classes, "move", depth - 1), min_size=1, max_size=3)
-        return ("objs", draw(elems))
+        return ("objs", draw(elems), draw(st.sampled_from([1, 1, 2])))
     if pname == "move":
         return ("obj", draw(instance_desc(classes, "anymove", depth - 1)))
     if pname == "criteria":
@@ -273,7 +273,8 @@ def _build_raw(desc, classes):
         elif v[0] == "obj":
             kwargs[k] = build(v[1], classes)
         elif v[0] == "objs":
-            kwargs[k] = [build(x, classes) for x in v[1]]
+            # the same objects repeated in interleaved order ([a, b, a, b]) when the repeat factor is 2
+            kwargs[k] = [build(x, classes) for x in v[1]] * (v[2] if len(v) > 2 else 1)
     with warnings.catch_warnings():
         warnings.simplefilter("ignore")
         obj = cls(**kwargs)
